@@ -6,6 +6,7 @@ import (
 	"fmt"
 	"reflect"
 	"sort"
+	"strings"
 
 	"github.com/cuteLittleDevil/go-jt808/protocol/jt808"
 	"github.com/cuteLittleDevil/go-jt808/protocol/model"
@@ -316,6 +317,7 @@ func c08Check(carrier string, body, blk []byte, items []c08Item, expectReject bo
 		}
 		return c08Additions(t.Additions, items)
 	case "0704":
+		// the batch is  [block+items, bare block, block+items]  (c08Bodies): every item must decode from its own bytes
 		var t model.T0x0704
 		err := t.Parse(c08Msg(body))
 		if expectReject {
@@ -327,14 +329,21 @@ func c08Check(carrier string, body, blk []byte, items []c08Item, expectReject bo
 		if err != nil {
 			return "reject|well-formed location body rejected|0704"
 		}
-		if len(t.Items) != 2 {
+		if len(t.Items) != 3 {
 			return "items|0704 item count"
 		}
 		for i := range t.Items {
 			if w := c08Base(&t.Items[i].T0x0200LocationItem, blk); w != "" {
 				return w
 			}
-			if w := c08Additions(t.Items[i].Additions, items); w != "" {
+			want := items
+			if i == 1 {
+				want = nil
+			}
+			if w := c08Additions(t.Items[i].Additions, want); w != "" {
+				if strings.HasPrefix(w, "items|count|") {
+					return "items|count|a 0x0704 item reports additional information that is not in its bytes"
+				}
 				return w
 			}
 		}
@@ -353,10 +362,14 @@ func c08Bodies(blk []byte, items []c08Item) map[string][]byte {
 	ib := c08ItemsBytes(items)
 	loc := append(append([]byte{}, blk...), ib...)
 	out := map[string][]byte{"0200": loc}
-	b7 := []byte{0, 2, 1}
-	for k := 0; k < 2; k++ {
-		b7 = append(b7, byte(len(loc)>>8), byte(len(loc)))
-		b7 = append(b7, loc...)
+	b7 := []byte{0, 3, 1}
+	for k := 0; k < 3; k++ {
+		it := loc
+		if k == 1 {
+			it = blk // a bare 28-byte item between two items that carry additional information
+		}
+		b7 = append(b7, byte(len(it)>>8), byte(len(it)))
+		b7 = append(b7, it...)
 	}
 	out["0704"] = b7
 	if len(items) == 0 {
